@@ -34,7 +34,7 @@ FAULT_OPS = ("alloc", "clock_tick", "clock_jump", "clock_freeze")
 # (probes "epoch_address_reused" / "ephemeral_id" only fire if the code under test calls id() on temporaries,
 #  which the repaired tree no longer does; they are kept for mutants and not required to be non-zero)
 PROBES = ["refinement_rounds_ge_2", "timeout_fired", "clock_went_backwards",
-          "symmetric_family", "twin_compared", "neighbour_compared", "flagged_partial_answer", "slow_clock_default_timeout"]
+          "symmetric_family", "same_hypergraph_object_reanalysed", "network_edited_between_analyses", "twin_compared", "neighbour_compared", "flagged_partial_answer", "slow_clock_default_timeout"]
 REAL = ["synkit.CRN.Topo.canon.CRNCanonicalizer (_init_part/_sig/_refine/_label/_search/_canon, summary/graph/orbits)",
         "synkit.CRN.Topo.automorphism.CRNAutomorphism.summary / has_nontrivial_automorphism / detect_automorphisms",
         "synkit.CRN.Hypergraph.backend._CRNGraphBackend + conversion.hypergraph_to_bipartite / hypergraph_to_species_graph",
@@ -121,11 +121,18 @@ def gen_net(rng) -> Net:
     return net
 
 
-def twin_of(net: Net, rng) -> Net:
-    species = sorted({s for rx in net for s in list(rx["r"]) + list(rx["p"])})
-    names = ["Q%d" % i for i in range(len(species))] if rng.random() < 0.5 else list(species)
+ALL_SPECIES = [chr(ord("A") + i) for i in range(6)]
+
+
+def twin_map(rng) -> Dict[str, str]:
+    names = ["Q%d" % i for i in range(len(ALL_SPECIES))] if rng.random() < 0.5 else list(ALL_SPECIES)
     rng.shuffle(names)
-    m = dict(zip(species, names))
+    return dict(zip(ALL_SPECIES, names))
+
+
+def twin_of(net: Net, rng, m: Optional[Dict[str, str]] = None) -> Net:
+    if m is None:
+        m = twin_map(rng)
     tw = [{"id": None, "rule": rx["rule"], "r": {m[s]: c for s, c in rx["r"].items()},
            "p": {m[s]: c for s, c in rx["p"].items()}} for rx in net]
     rng.shuffle(tw)
@@ -163,10 +170,11 @@ def neighbour_of(net: Net, rng) -> Net:
 def generate(seed: int, tier: str = "quick") -> Dict[str, Any]:
     rng = rng_for(seed, "c18", "gen")
     net = gen_net(rng)
-    cfg = {
-        "net": net, "twin": twin_of(net, rng), "nbr": neighbour_of(net, rng),
-        "include_rule": rng.random() < 0.6, "include_stoich": rng.random() < 0.7, "integer_ids": rng.random() < 0.25,
-    }
+    tm = twin_map(rng)
+    cfg = {"net": net, "twin": twin_of(net, rng, tm), "nbr": neighbour_of(net, rng), "twin_map": tm,
+           "persistent_objects": rng.random() < 0.7}
+    flags = [rng.random() < 0.6, rng.random() < 0.7, rng.random() < 0.25]
+    vary_flags = rng.random() < 0.5
     faulty = rng.random() < 0.8
     clocky = rng.random() < 0.5
     ops: List[Dict[str, Any]] = []
@@ -193,13 +201,18 @@ def generate(seed: int, tier: str = "quick") -> Dict[str, Any]:
     for _ in range(rng.randint(3, 10)):
         if faulty and rng.random() < 0.45:
             ops.append(fault())
+        if vary_flags and rng.random() < 0.4:
+            flags = [rng.random() < 0.6, rng.random() < 0.6, rng.random() < 0.25]
+        if rng.random() < 0.06:
+            sp = rng.sample(ALL_SPECIES[:4], 2)
+            ops.append({"op": "edit", "s": s(), "rx": {"r": {sp[0]: rng.choice([1, 2])}, "p": {sp[1]: rng.choice([1, 1, 3])}}})
         which = rng.choice(["net", "net", "twin", "twin", "nbr"])
         tmo = rng.choice([None, None, None, 1e9]) if not clocky else rng.choice([None, None, 0, 0.5, 5, 1e9])
         if rng.random() < 0.6:
-            ops.append({"op": "canon", "s": s(), "which": which, "timeout": tmo,
+            ops.append({"op": "canon", "s": s(), "which": which, "timeout": tmo, "flags": list(flags),
                         "api": rng.choice(["summary", "summary", "graph", "canonical"])})
         else:
-            ops.append({"op": "aut", "s": s(), "which": which, "timeout": (tmo if rng.random() < 0.7 else "default"),
+            ops.append({"op": "aut", "s": s(), "which": which, "flags": list(flags), "timeout": (tmo if rng.random() < 0.7 else "default"),
                         "max_count": rng.choice([100, 1000, 5000, 3]),
                         "api": rng.choice(["summary", "summary", "detect", "nontrivial"])})
     return {"cfg": cfg, "ops": ops}
@@ -280,12 +293,25 @@ def execute(case: Dict[str, Any], sim: Sim) -> None:
 
 def _run(case: Dict[str, Any], sim: Sim, world: World, clock: SimClock) -> None:
     cfg = case["cfg"]
-    bip, sto, iid = cfg["include_rule"], cfg["include_stoich"], cfg["integer_ids"]
-    truth_cache: Dict[str, Any] = {}
-    canon_seen: Dict[str, Any] = {}   # which -> canon signature (unflagged answers only)
-    cond_base = "%s view, stoich=%s" % ("bipartite" if bip else "species", "on" if (sto and bip) else "off")
+    nets: Dict[str, Net] = {w: copy.deepcopy(cfg[w]) for w in ("net", "twin", "nbr")}
+    objs: Dict[str, CRNHyperGraph] = {}
+    version = [0]
+    bip = sto = iid = False
+    cond_base = ""
+    truth_cache: Dict[Any, Any] = {}
+    canon_seen: Dict[Any, Any] = {}   # (which, view flags, version) -> canon signature (unflagged answers only)
+
+    def get_obj(which: str) -> CRNHyperGraph:
+        if not cfg.get("persistent_objects"):
+            return build_net(nets[which])
+        if which not in objs:
+            objs[which] = build_net(nets[which])
+        else:
+            sim.probe("same_hypergraph_object_reanalysed")
+        return objs[which]
 
     def truth(which: str, Gv: nx.DiGraph) -> Dict[str, Any]:
+        which = (which, bip, sto and bip, iid and bip, version[0])
         t = truth_cache.get(which)
         if t is None:
             g = view_ref(Gv, bip, sto)
@@ -301,7 +327,7 @@ def _run(case: Dict[str, Any], sim: Sim, world: World, clock: SimClock) -> None:
     def check_view(which: str, H: CRNHyperGraph, Gv: nx.DiGraph) -> None:
         if iid:
             return
-        nodes, arcs = expected_view(cfg[which], H, bip, sto)
+        nodes, arcs = expected_view(nets[which], H, bip, sto)
         g = view_ref(Gv, bip, sto)
         if dict(g.key) != nodes or g.arcs != arcs:
             raise Violation(PROP, "_CRNGraphBackend.G", "view_differs_from_definition", cond_base,
@@ -342,8 +368,25 @@ def _run(case: Dict[str, Any], sim: Sim, world: World, clock: SimClock) -> None:
             clock.schedule(op["after"], "freeze", op["k"])
             sim.event("clock_freeze", [op["after"], op["k"]])
             continue
+        if k == "edit":
+            rx = op["rx"]
+            tm = cfg.get("twin_map") or {}
+            for w in ("net", "twin", "nbr"):
+                mp = tm if w == "twin" else {}
+                r = {mp.get(a, a): c for a, c in rx["r"].items()}
+                p = {mp.get(a, a): c for a, c in rx["p"].items()}
+                nets[w].append({"id": None, "rule": "r", "r": r, "p": p})
+                if w in objs:
+                    objs[w].add_rxn(dict(r), dict(p), rule="r")
+            version[0] += 1
+            sim.probe("network_edited_between_analyses")
+            sim.event("edit", rx)
+            continue
         which = op["which"]
-        H = build_net(cfg[which])
+        fl = op.get("flags") or [cfg.get("include_rule", False), cfg.get("include_stoich", True), cfg.get("integer_ids", False)]
+        bip, sto, iid = bool(fl[0]), bool(fl[1]), bool(fl[2])
+        cond_base = "%s view, stoich=%s" % ("bipartite" if bip else "species", "on" if (sto and bip) else "off")
+        H = get_obj(which)
         reused_before = len(world.main_alloc.reused_log)
         eph_before = sim.probes.get("ephemeral_id", 0)
         clock.begin_window()
@@ -395,31 +438,34 @@ def _run(case: Dict[str, Any], sim: Sim, world: World, clock: SimClock) -> None:
                     if not T["capped"]:
                         if s["automorphism_count"] != T["count"]:
                             raise Violation(PROP, site, "automorphism_count_wrong", cond_base,
-                                            {"got": s["automorphism_count"], "true": T["count"], "net": cfg[which]})
+                                            {"got": s["automorphism_count"], "true": T["count"], "net": nets[which]})
                         if as_orbit_set(s["orbits"]) != T["orbits"]:
                             raise Violation(PROP, site, "orbits_wrong", cond_base,
                                             {"got": sorted(sorted(map(str, o)) for o in s["orbits"]),
                                              "true": sorted(sorted(map(str, o)) for o in T["orbits"])})
-                    prev = canon_seen.get(which)
+                    ck = lambda w: (w, bip, sto and bip, version[0])  # noqa: E731
+                    prev = canon_seen.get(ck(which))
                     if prev is not None and prev != got:
                         cls = "result_depends_on_allocator" if world.main_alloc.reused_log else "result_not_repeatable"
                         raise Violation(PROP, site, cls, cond_base, {"first": prev, "now": got})
-                    canon_seen[which] = got
+                    canon_seen[ck(which)] = got
                     for other in ("net", "twin"):
-                        if other != which and which in ("net", "twin") and other in canon_seen:
+                        if other != which and which in ("net", "twin") and ck(other) in canon_seen:
                             sim.probe("twin_compared")
-                            if canon_seen[other] != got:
+                            if canon_seen[ck(other)] != got:
                                 raise Violation(PROP, site, "twins_get_different_canon",
                                                 cond_base + ("; address reuse" if world.main_alloc.reused_log else ""),
-                                                {"net": cfg["net"], "twin": cfg["twin"], which: got, other: canon_seen[other]})
-                    if "nbr" in canon_seen and "net" in canon_seen and which in ("nbr", "net"):
+                                                {"net": nets["net"], "twin": nets["twin"], which: got, other: canon_seen[ck(other)]})
+                    if ck("nbr") in canon_seen and ck("net") in canon_seen and which in ("nbr", "net"):
                         sim.probe("neighbour_compared")
-                        same_view = gr.exists(truth_cache["net"]["g"], truth_cache["nbr"]["g"], mode="iso") if "net" in truth_cache and "nbr" in truth_cache else None
+                        tk = lambda w: (w, bip, sto and bip, iid and bip, version[0])  # noqa: E731
+                        same_view = (gr.exists(truth_cache[tk("net")]["g"], truth_cache[tk("nbr")]["g"], mode="iso")
+                                     if tk("net") in truth_cache and tk("nbr") in truth_cache else None)
                         if same_view is not None:
-                            if same_view and canon_seen["nbr"] != canon_seen["net"]:
+                            if same_view and canon_seen[ck("nbr")] != canon_seen[ck("net")]:
                                 raise Violation(PROP, site, "twins_get_different_canon", cond_base + "; neighbour with isomorphic view", {})
-                            if not same_view and canon_seen["nbr"] == canon_seen["net"]:
-                                raise Violation(PROP, site, "non_isomorphic_get_same_canon", cond_base, {"net": cfg["net"], "nbr": cfg["nbr"]})
+                            if not same_view and canon_seen[ck("nbr")] == canon_seen[ck("net")]:
+                                raise Violation(PROP, site, "non_isomorphic_get_same_canon", cond_base, {"net": nets["net"], "nbr": nets["nbr"]})
                 else:
                     sim.probe("flagged_partial_answer")
                     if not refines(s["orbits"], T["orbits"]):
@@ -481,10 +527,10 @@ def _run(case: Dict[str, Any], sim: Sim, world: World, clock: SimClock) -> None:
             for m in res["sample_mappings"]:
                 if not gr.is_valid_map(T["g"], T["g"], m, mode="iso"):
                     raise Violation(PROP, site, "returned_map_not_automorphism", cond_base,
-                                    {"map": {str(x): str(y) for x, y in m.items()}, "net": cfg[which]})
+                                    {"map": {str(x): str(y) for x, y in m.items()}, "net": nets[which]})
             if not T["capped"]:
                 if cnt > T["count"]:
-                    raise Violation(PROP, site, "automorphism_count_wrong", cond_base, {"got": cnt, "true": T["count"], "net": cfg[which]})
+                    raise Violation(PROP, site, "automorphism_count_wrong", cond_base, {"got": cnt, "true": T["count"], "net": nets[which]})
                 if not stopped:
                     if cnt != T["count"]:
                         raise Violation(PROP, site, "unflagged_partial_answer", cond_base, {"got": cnt, "true": T["count"]})
@@ -531,8 +577,12 @@ def simplify(case: Dict[str, Any]) -> Iterable[Dict[str, Any]]:
             n = copy.deepcopy(op)
             n["pick"] = "lifo"
             yield repl(n)
-    for fld in ("integer_ids",):
-        if cfg.get(fld):
+    if cfg.get("persistent_objects"):
+        c = copy.deepcopy(case)
+        c["cfg"]["persistent_objects"] = False
+        yield c
+    for idx, op in enumerate(case["ops"]):
+        if op.get("flags") and op["flags"][2]:
             c = copy.deepcopy(case)
-            c["cfg"][fld] = False
+            c["ops"][idx]["flags"][2] = False
             yield c
